@@ -420,7 +420,8 @@ func aspStrongWeak(c *caseRec) map[string]any {
 	return map[string]any{"aspect": "strongweak",
 		"slit": litOf(s), "wlit": litOf(w), "nlit": litOf(n),
 		"sid": idOf(s), "wid": idOf(w),
-		"isSW": isOf(s, w), "isWS": isOf(w, s), "isSS": isOf(s, s2), "isWW": isOf(w, w2), "isSN": isOf(s, n), "isNS": isOf(n, s)}
+		"isSW": isOf(s, w), "isWS": isOf(w, s), "isSS": isOf(s, s2), "isWW": isOf(w, w2), "isSN": isOf(s, n), "isNS": isOf(n, s),
+		"isSD": isOf(s, displayOnly()), "isDS": isOf(displayOnly(), s)}
 }
 
 func aspReadBack(c *caseRec) map[string]any {
@@ -457,7 +458,8 @@ func aspWeakRef(c *caseRec) map[string]any {
 	} else {
 		w = uriRef(c.Text)
 	}
-	return map[string]any{"aspect": "weakref", "wlit": litOf(w), "wid": idOf(w), "isWW": isOf(w, proto.Clone(w).(*dtpb.Reference))}
+	return map[string]any{"aspect": "weakref", "wlit": litOf(w), "wid": idOf(w), "isWW": isOf(w, proto.Clone(w).(*dtpb.Reference)),
+		"isWD": isOf(w, displayOnly()), "isDW": isOf(displayOnly(), w)}
 }
 
 // ----------------------------------------------------------------- canonical
@@ -565,19 +567,36 @@ func aspCanon(c *caseRec) map[string]any {
 // ---------------------------------------------------------------------- pool
 
 func buildPoolRef(d refDesc) *dtpb.Reference {
+	var r *dtpb.Reference
 	switch d.Shape {
 	case "strong":
-		_, r := typedRef(d.Type, d.Rid, d.Ver)
-		return r
+		_, r = typedRef(d.Type, d.Rid, d.Ver)
 	case "weak":
-		return reference.Weak(resource.Type(d.Type), d.Text)
+		r = reference.Weak(resource.Type(d.Type), d.Text)
 	case "weaknt":
-		return uriRef(d.Text)
+		r = uriRef(d.Text)
 	case "frag":
-		return fragRef(d.Type, d.Rid)
+		r = fragRef(d.Type, d.Rid)
+	case "none": // no literal part
+		r = &dtpb.Reference{}
+		if d.Type != "" {
+			r.Type = &dtpb.Uri{Value: d.Type}
+		}
 	}
-	return nil
+	if r == nil {
+		return nil
+	}
+	if d.Ident != "" {
+		r.Identifier = &dtpb.Identifier{System: &dtpb.Uri{Value: "urn:sys"}, Value: &dtpb.String{Value: d.Ident}}
+	}
+	if d.Disp != "" {
+		r.Display = &dtpb.String{Value: d.Disp}
+	}
+	return r
 }
+
+// displayOnly is a reference without a literal part.
+func displayOnly() *dtpb.Reference { return &dtpb.Reference{Display: &dtpb.String{Value: "Jane Doe"}} }
 
 func aspIsRel(c *caseRec) map[string]any {
 	refs := make([]*dtpb.Reference, len(c.Refs))
